@@ -287,7 +287,9 @@ def _site(chk, prog, f, c, name, bi, si, oi, only=None, skip=()):
                                         any(x in res for x in backward_slice(st.ops[0], phi_control=False)):
                                     ok = True
                                     detail = "fill level '%s' advanced by the result" % fld[1]
-                    if not phis and not loads and what == "buffer" and strip_casts(v).is_const:
+                    vb = strip_casts(resolve_ptr(prog, v, f.unit)[0])
+                    zero_filler = strip_casts(v).is_const or (vb.is_inst and vb.op == "call" and norm_callee(vb.callee) in ("calloc", "alloc_array", "alloc_flex"))
+                    if not phis and not loads and what == "buffer" and zero_filler:
                         chk.ok("K10-advance", inst + ":" + what, c, "constant block (every byte of it is the same filler): position-independent")
                         continue
                     if not phis and not loads:
